@@ -754,7 +754,11 @@ static void run_rel(vh::Trace& tr, vh::Rng& rng, int idx, bool big) {
       // both factors are quantised so that the sum of n products stays below 2^31
       int bits = 13;
       while (bits > 6 && (double)n * std::ldexp(1.0, 2 * bits) > 1.5e9) --bits;
-      const int kv = pick_k(maxabs(vv), bits), kh = pick_k(maxabs(hv), bits);
+      // H v is recorded with a resolution relative to the terms it is summed from (largest Hessian entry times largest
+      // component of v), so that single-precision noise in a (nearly) vanishing H v is not magnified
+      double hmax = 0;
+      for (auto& row : rows) hmax = std::max(hmax, maxabs(row));
+      const int kv = pick_k(maxabs(vv), bits), kh = pick_k(std::max(maxabs(hv), hmax * maxabs(vv)), bits);
       vh::Json j("PSD");
       j.num("dir", d).num("kv", kv).num("kh", kh).arr("v", fxv(vv, kv)).arr("hv", fxv(hv, kh));
       finish(tr, j);
